@@ -740,6 +740,44 @@ example (inv : List (Tf ℝ) → List (Motion ℝ) → List ℝ × List ℝ)
       = Spring.step inv cf (noLimits exSysQ) (Spring.init exSysQ exQQ (List.replicate exSysQ.nv 0)) act :=
   spring_step_init_limit_inert_q inv cf exSysQ exQQ act exSysQ_ok.1 exSysQ_ok.2
 
+/-! ## sharpness: the chart hypothesis of `PureOne.hinge` cannot be dropped -/
+
+/-- **Spring (and, on the real code, positional): a hinge coordinate beyond `π` is measured modulo
+`2π`.**  For `π < q ≤ 3π` the limit block of `_one_dof` sees `q − 2π`; when `lo ≤ q ≤ hi` but
+`q − 2π < lo` the limit torque `−k·(q − 2π − lo)·axis` is applied although `q` is inside its range: the
+joint force with limits differs from the one without.  (Real code, hinge about `y`, `qd = 0.7`, one step: range `[−1, 4]`, `q = 3.5`: `qd′ = 213.6` (spring) /
+`98.0` (positional) with the limit, `0.7` without; range `[1, 5]`, `q = 4.5`: `332.9` / `35.9` vs `0.7`;
+the generalized pipeline is unaffected in both.  Ranges of the property's generator stay within
+`±2.5 < π`, so this is outside its quantifier: see `notes/C06-deepen.md`.) -/
+theorem spring_hinge_beyond_pi_limit_active (lk : LinkP ℝ) (jd : Motion ℝ) (d : DofP ℝ) (a : V3 ℝ)
+    (q qd tau l : ℝ) (hdm : d.motion = ⟨a, ⟨0, 0, 0⟩⟩) (ha : V3.dot a a = 1)
+    (h1 : Real.pi < q) (h2 : q ≤ 3 * Real.pi) (hlo : d.lo = some l) (hl : q - 2 * Real.pi < l)
+    (hhi : ∀ u, d.hi = some u → q - 2 * Real.pi ≤ u) (hk : lk.cLimitStiffness ≠ 0) :
+    Spring.oneDof true lk (Kin.jcalc ⟨.one, [q], [qd], [d]⟩).1 jd d tau
+      ≠ Spring.oneDof false lk (Kin.jcalc ⟨.one, [q], [qd], [d]⟩).1 jd d tau :=
+  oneDof_hinge_wrap_ne lk jd d a q qd tau l hdm ha h1 h2 hlo hl hhi hk
+
+/-- a concrete case confirmed on the real code: hinge about `y`, range `[1, 5]`, `q = 9/2` is inside the
+range and satisfies every hypothesis of `spring_hinge_beyond_pi_limit_active` (only `2 ≤ π ≤ 4` is used) -/
+example (jd : Motion ℝ) (qd tau : ℝ) :
+    InRange (9 / 2 : ℝ) (some 1) (some 5)
+    ∧ Spring.oneDof true exLkQ (Kin.jcalc ⟨.one, [9 / 2], [qd],
+          [exDofQ ⟨0, 1, 0⟩ ⟨0, 0, 0⟩ (some 1) (some 5)]⟩).1 jd
+          (exDofQ ⟨0, 1, 0⟩ ⟨0, 0, 0⟩ (some 1) (some 5)) tau
+      ≠ Spring.oneDof false exLkQ (Kin.jcalc ⟨.one, [9 / 2], [qd],
+          [exDofQ ⟨0, 1, 0⟩ ⟨0, 0, 0⟩ (some 1) (some 5)]⟩).1 jd
+          (exDofQ ⟨0, 1, 0⟩ ⟨0, 0, 0⟩ (some 1) (some 5)) tau := by
+  have hp2 := Real.two_le_pi
+  have hp4 := Real.pi_le_four
+  refine ⟨⟨fun l hl => ?_, fun u hu => ?_⟩, ?_⟩
+  · cases hl; norm_num
+  · cases hu; norm_num
+  · refine spring_hinge_beyond_pi_limit_active exLkQ jd _ ⟨0, 1, 0⟩ (9 / 2) qd tau 1 rfl
+      (by simp [V3.dot]) (by linarith) (by linarith) rfl (by linarith) ?_ (by simp [exLkQ])
+    intro u hu
+    simp [exDofQ] at hu
+    rw [← hu]; linarith
+
 /-- beyond the range the generalized limit row is NOT zero (the iff is not vacuous) -/
 example : ¬ InRange (3 / 2 : ℝ) (some (-1)) (some 1) := by
   intro h; have := h.2 1 rfl; norm_num at this
